@@ -920,32 +920,53 @@ func ruleR16_5(c *Check) {
 	r.Exists(pairs >= 4, it, "buffer updates", nil, "expected an append and a reset of both buffers")
 	// delivery: fn(*e, vp) in a range over the entries with vp = ptrs[i]
 	delivered := false
-	it.walk(func(x ast.Node) bool {
-		rs, ok := x.(*ast.RangeStmt)
+	// fn(*e, vp) with vp = ptrs[i] and e = ents[i] for the same i: e is the value of a
+	// `for i, e := range ents`, or ents[i] itself (index loop)
+	indexOf := func(e ast.Expr, buf *types.Var) types.Object {
+		ix, ok := unparen(w.Origin(it, e)).(*ast.IndexExpr)
 		if !ok {
+			return nil
+		}
+		xid, ok1 := unparen(ix.X).(*ast.Ident)
+		iid, ok2 := unparen(ix.Index).(*ast.Ident)
+		if ok1 && ok2 && w.Use(xid) == types.Object(buf) {
+			return w.Use(iid)
+		}
+		return nil
+	}
+	it.walk(func(x ast.Node) bool {
+		call, ok := x.(*ast.CallExpr)
+		if !ok || len(call.Args) != 2 {
 			return true
 		}
-		id, ok := unparen(rs.X).(*ast.Ident)
-		if !ok || w.Use(id) != types.Object(ents) || rs.Key == nil {
+		pi := indexOf(call.Args[1], ptrs)
+		if pi == nil {
 			return true
 		}
-		kid, _ := rs.Key.(*ast.Ident)
-		ast.Inspect(rs.Body, func(m ast.Node) bool {
-			call, ok := m.(*ast.CallExpr)
-			if !ok || len(call.Args) != 2 {
-				return true
-			}
-			ix, ok := unparen(w.Origin(it, call.Args[1])).(*ast.IndexExpr)
-			if !ok {
-				return true
-			}
-			xid, ok1 := unparen(ix.X).(*ast.Ident)
-			iid, ok2 := unparen(ix.Index).(*ast.Ident)
-			if ok1 && ok2 && kid != nil && w.Use(xid) == types.Object(ptrs) && w.Use(iid) == w.Info.Defs[kid] {
-				delivered = true
-			}
+		a0 := unparen(call.Args[0])
+		if st, isStar := a0.(*ast.StarExpr); isStar {
+			a0 = unparen(st.X)
+		}
+		if ei := indexOf(a0, ents); ei != nil && ei == pi {
+			delivered = true
 			return true
-		})
+		}
+		// range value of a loop over ents whose key is the pointer index
+		if id, isId := a0.(*ast.Ident); isId {
+			for p := w.parentOf(call); p != nil; p = w.parentOf(p) {
+				rs, isRange := p.(*ast.RangeStmt)
+				if !isRange {
+					continue
+				}
+				xid, ok1 := unparen(rs.X).(*ast.Ident)
+				kid, ok2 := rs.Key.(*ast.Ident)
+				vid, ok3 := rs.Value.(*ast.Ident)
+				if ok1 && ok2 && ok3 && w.Use(xid) == types.Object(ents) && w.Info.Defs[kid] == pi && w.Info.Defs[vid] == w.Use(id) {
+					delivered = true
+				}
+				break
+			}
+		}
 		return true
 	})
 	r.Check(delivered, it, "entries delivered with the pointer at the same index", nil, "the delivery loop does not pass vptrs[i] with entries[i]")
